@@ -17,7 +17,7 @@ import impl
 import msggen
 import sweep
 
-PROPFILES = ["props/C13.v"]
+PROPFILES = ["props/C13.v", "props/C13_src.v"]
 RULE = ("messages from parse and from all constructor routes x attribute names {each existing attribute, private "
         "(_payload,_immutable,_mode,_ubxClass,_length,_checksum), new, read-only properties} x {set, delete}: must raise "
         "UBXMessageError and leave serialize()/attributes unchanged; file-descriptor-level capture of stdout/stderr "
@@ -222,12 +222,16 @@ def run(ctx):
             msgs.append((sp, m))
     if cap.data:
         ctx.fail("output-written", {"op": "FDCAPTURE", "n": len(specs)}, "nothing on stdout/stderr", cap.data[:300].decode("utf-8", "replace"))
+    src_names = source_names()
+    ctx.count("attribute_names_taken_from_the_source", len(src_names))
     for sp, m in msgs:
         nmsg += 1
         before = (m.serialize(), dict(m.__dict__))
         pub = [k for k in m.__dict__ if not k.startswith("_")]
         names = pub[:3] + pub[-1:] + ["_payload", "_immutable", "_mode", "_ubxClass", "_ubxID", "_length", "_checksum",
                                       "brand_new", "payload", "identity", "length"]
+        if nmsg % 7 == 1:
+            names += src_names      # every identifier-like string / attribute name the class's source mentions
         for nm in names:
             for op in ("set", "del"):
                 ctx.evaluations += 1
@@ -313,3 +317,22 @@ def run(ctx):
     order_independence(ctx)
     if digest_tables() != d0:
         ctx.fail("tables-mutated", {"op": "DIGEST"}, "tables unchanged", "digest differs")
+
+
+def source_names():
+    """Identifier-like string constants and attribute names that occur in ubxmessage.py: a name the code treats
+    specially has to be written there."""
+    import ast
+    import re
+    import pyubx2.ubxmessage as um
+    out = set()
+    try:
+        tree = ast.parse(open(um.__file__, encoding="utf-8").read())
+    except (OSError, SyntaxError):
+        return []
+    for n in ast.walk(tree):
+        if isinstance(n, ast.Constant) and isinstance(n.value, str) and re.fullmatch(r"[A-Za-z_][A-Za-z0-9_]{0,30}", n.value):
+            out.add(n.value)
+        elif isinstance(n, ast.Attribute):
+            out.add(n.attr)
+    return sorted(out)[:400]
